@@ -497,4 +497,305 @@ theorem brun_cover (c : BCfg) (hv : c.max = 0 ∨ c.min ≤ c.max) :
       exact ih _ _ consumed (finish_inv s fired consumed fid err h) (finish_cover c s fid err hc) (by simpa [Tagged] using ht)
         (by simpa [consumedIds] using hnd) (by intro x hx; exact hnew x (by simpa [consumedIds] using hx))
 
+
+/-! ### the converse: a `Done` is handed only to batches that contain part of its request -/
+
+/-- every `Done` a batch holds belongs to a request that has a unit in the batch -/
+def Conv (refs : List RefCount) (b : Parts × List DoneObj) : Prop :=
+  ∀ d ∈ b.2, ∀ id, tgt refs d = some id → ∃ u ∈ b.1, u.1 = id
+
+theorem Conv.mono {refs refs' : List RefCount} {b : Parts × List DoneObj} (h : Conv refs b)
+    (ht : ∀ d ∈ b.2, tgt refs' d = tgt refs d) : Conv refs' b := by
+  intro d hd id hid
+  exact h d hd id (by rw [← ht d hd]; exact hid)
+
+theorem pack_nonempty (max : Nat) : ∀ (all acc : Parts) (room : Nat), (acc ≠ [] ∨ all ≠ []) →
+    ∀ ch ∈ pack max all acc room, ch ≠ [] := by
+  intro all
+  induction all with
+  | nil =>
+    intro acc room h ch hch
+    simp only [pack, List.mem_singleton] at hch
+    subst hch
+    rcases h with h | h
+    · simpa using h
+    · exact absurd rfl h
+  | cons x rest ih =>
+    intro acc room _ ch hch
+    obtain ⟨id, n⟩ := x
+    simp only [pack] at hch
+    split at hch
+    · rename_i hc
+      rcases List.mem_cons.mp hch with h | h
+      · subst h
+        simp only [Bool.and_eq_true, Bool.not_eq_true', List.isEmpty_eq_false_iff] at hc
+        simpa using hc.2
+      · exact ih _ _ (Or.inl (by simp)) ch h
+    · exact ih _ _ (Or.inl (by simp)) ch hch
+
+theorem pack_flatten (max : Nat) : ∀ (all acc : Parts) (room : Nat), (pack max all acc room).flatten = acc.reverse ++ all := by
+  intro all
+  induction all with
+  | nil => intro acc room; simp [pack]
+  | cons x rest ih =>
+    intro acc room
+    obtain ⟨id, n⟩ := x
+    simp only [pack]
+    split
+    · simp [ih]
+    · rw [ih]; simp
+
+theorem mergeSplit_nonempty (max : Nat) (a b : Parts) (h : a ++ b ≠ []) : ∀ ch ∈ partsMergeSplit max a b, ch ≠ [] := by
+  intro ch hch
+  simp only [partsMergeSplit] at hch
+  split at hch
+  · simp only [List.mem_singleton] at hch; subst hch; exact h
+  · exact pack_nonempty max (a ++ b) [] max (Or.inr h) ch hch
+
+theorem mergeSplit_flatten (max : Nat) (a b : Parts) : (partsMergeSplit max a b).flatten = a ++ b := by
+  simp only [partsMergeSplit]
+  split
+  · simp
+  · rw [pack_flatten]; simp
+
+theorem getLastD_mem_of_ne (l : List Parts) (h : l ≠ []) : l.getLast?.getD [] ∈ l := by
+  cases hl : l.getLast? with
+  | none => exact absurd (List.getLast?_eq_none_iff.mp hl) h
+  | some x => exact List.mem_of_getLast? hl
+
+theorem conv_new (refs : List RefCount) (id : Nat) (ch : Parts) (d : DoneObj) (ht : tgt refs d = some id)
+    (hne : ch ≠ []) (hu : ∀ u ∈ ch, u.1 = id) : Conv refs (ch, [d]) := by
+  intro d' hd' id' hid'
+  simp only [List.mem_singleton] at hd'
+  subst hd'
+  rw [ht] at hid'
+  injection hid' with hid'
+  subst hid'
+  cases ch with
+  | nil => exact absurd rfl hne
+  | cons u us => exact ⟨u, List.mem_cons_self .., hu u (List.mem_cons_self ..)⟩
+
+def VInv (s : BState) : Prop := ∀ b ∈ s.slots, Conv s.refs b
+
+theorem consume_conv (c : BCfg) (hv : c.max = 0 ∨ c.min ≤ c.max) (s : BState) (id : Nat) (units : Parts)
+    (hne : units ≠ []) (hu : ∀ u ∈ units, u.1 = id) (hwf : ∀ i, DoneObj.ref i ∈ s.dones → i < s.refs.length)
+    (hc : CInv c s) (hvi : VInv s) : VInv ((s.consume c id units).1.start (s.consume c id units).2) := by
+  have hstable : ∀ (k : Nat) (b : Parts × List DoneObj), b ∈ s.slots → Conv s.refs b → Conv (s.mkDone id k).1.refs b := by
+    intro k b hb hcov
+    refine hcov.mono ?_
+    intro d hd
+    apply (mkDone_tgt s id k).2
+    intro i hi
+    subst hi
+    exact hwf i (slots_dones_mem s b hb _ hd)
+  cases hcur : s.cur with
+  | none =>
+    have hst := start_spec (s.consume c id units).2 (s.consume c id units).1
+    have hrlne : partsMergeSplit c.max units [] ≠ [] := List.length_pos_iff.mp (mergeSplit_len_pos c.max units [])
+    have hchunk : ∀ ch ∈ partsMergeSplit c.max units [], ch ≠ [] ∧ ∀ u ∈ ch, u.1 = id := by
+      intro ch hch
+      refine ⟨mergeSplit_nonempty c.max units [] (by simpa using hne) ch hch, ?_⟩
+      intro u hu'
+      have := mergeSplit_mem c.max units [] ch hch u hu'
+      simp only [List.append_nil] at this
+      exact hu u this
+    have hmk := mkDone_tgt s id (partsMergeSplit c.max units []).length
+    have hmf := mkDone_flights s id (partsMergeSplit c.max units []).length
+    have hold : ∀ f ∈ s.flights, Conv (s.mkDone id (partsMergeSplit c.max units []).length).1.refs (f.parts, f.dones) := by
+      intro f hf
+      have hm : (f.parts, f.dones) ∈ s.slots := by
+        simp only [BState.slots, hcur, List.nil_append, List.mem_map]; exact ⟨f, hf, rfl⟩
+      exact hstable _ _ hm (hvi _ hm)
+    intro b hb
+    rw [start_slots] at hb
+    rw [hst.1]
+    simp only [BState.consume, hcur] at hb ⊢
+    split at hb
+    · rename_i hsm
+      simp only [hsm, if_true]
+      simp only [BState.slots, List.mem_append, List.mem_map, List.mem_singleton] at hb
+      rcases hb with (h | ⟨f, hf, rfl⟩) | ⟨ch, hch, rfl⟩
+      · subst h
+        have := hchunk _ (getLastD_mem_of_ne _ hrlne)
+        exact conv_new _ id _ _ hmk.1 this.1 this.2
+      · rw [hmf.1] at hf; exact hold f hf
+      · have := hchunk _ (List.dropLast_subset _ hch)
+        exact conv_new _ id _ _ hmk.1 this.1 this.2
+    · rename_i hsm
+      simp only [hsm, if_false]
+      simp only [BState.slots, hmf.2.2, hcur, List.nil_append, List.mem_append, List.mem_map] at hb
+      rcases hb with ⟨f, hf, rfl⟩ | ⟨ch, hch, rfl⟩
+      · rw [hmf.1] at hf; exact hold f hf
+      · have := hchunk _ hch
+        exact conv_new _ id _ _ hmk.1 this.1 this.2
+  | some cd =>
+    obtain ⟨cur, dones⟩ := cd
+    have hcurfit : c.max = 0 ∨ cur.items ≤ c.max := by
+      have := hc.2 (cur, dones) hcur
+      rcases hv with h | h
+      · exact Or.inl h
+      · right; simp only at this; omega
+    obtain ⟨pre, post, chs, hun, hrl, hchs⟩ := mergeSplit_shape c.max cur units hcurfit
+    have hchsne : ∀ ch ∈ chs, ch ≠ [] := by
+      intro ch hch
+      apply mergeSplit_nonempty c.max cur units (by simp [hne])
+      rw [hrl]; exact List.mem_cons_of_mem _ hch
+    have hflat := mergeSplit_flatten c.max cur units
+    rw [hrl] at hflat
+    rw [consume_some_eq c s id units cur pre dones chs hcur hrl]
+    generalize hfhn : (chs.length + 1 == 1 || decide ((cur ++ pre).count > cur.count)) = fhn
+    generalize hk : (if fhn = true then chs.length + 1 else chs.length + 1 - 1) = k
+    generalize hff : (decide (chs.length + 1 > 1) || decide ((cur ++ pre).items ≥ c.min)) = ff
+    generalize hsm : (decide (chs.length > 0) && decide ((chs.getLast?.getD []).items < c.min)) = small
+    have hmk := mkDone_tgt s id k
+    have hcm := consumeMerge_slots (s.mkDone id k).1 (s.mkDone id k).2 dones fhn ff small (cur ++ pre) (chs.getLast?.getD []) chs
+    have hcms := consumeMerge_spec (s.mkDone id k).1 (s.mkDone id k).2 dones fhn ff small (cur ++ pre) (chs.getLast?.getD []) chs
+      (by intro h; rw [h] at hsm; simp only [Bool.and_eq_true, decide_eq_true_eq] at hsm; exact hsm.1)
+      (by intro h; rw [h] at hff
+          simp only [Bool.or_eq_false_iff, decide_eq_false_iff_not] at hff
+          apply List.eq_nil_of_length_eq_zero; omega)
+    have hst := start_spec (consumeMerge (s.mkDone id k).1 (s.mkDone id k).2 dones fhn ff small (cur ++ pre) (chs.getLast?.getD []) chs).2
+      (consumeMerge (s.mkDone id k).1 (s.mkDone id k).2 dones fhn ff small (cur ++ pre) (chs.getLast?.getD []) chs).1
+    have hfirst : Conv (s.mkDone id k).1.refs (cur ++ pre, if fhn = true then dones ++ [(s.mkDone id k).2] else dones) := by
+      have hold := hstable k (cur, dones) (by simp [BState.slots, hcur]) (hvi _ (by simp [BState.slots, hcur]))
+      intro d hd id' hid'
+      have holdcase : d ∈ dones → ∃ u ∈ cur ++ pre, u.1 = id' := by
+        intro hdd
+        obtain ⟨u, hu1, hu2⟩ := hold d hdd id' hid'
+        exact ⟨u, List.mem_append.mpr (Or.inl hu1), hu2⟩
+      cases fhn with
+      | false => exact holdcase (by simpa using hd)
+      | true =>
+        simp only [if_true, List.mem_append, List.mem_singleton] at hd
+        rcases hd with h | h
+        · exact holdcase h
+        · subst h
+          rw [hmk.1] at hid'
+          injection hid' with hid'
+          subst hid'
+          -- the first result holds part of the new request: it is the only result, or its item count grew
+          simp only [Bool.or_eq_true, beq_iff_eq, decide_eq_true_eq, count_append] at hfhn
+          have hpre : pre ≠ [] := by
+            rcases hfhn with h1 | h1
+            · have hc0 : chs = [] := List.eq_nil_of_length_eq_zero (by omega)
+              rw [hc0] at hflat
+              simp only [List.flatten_cons, List.flatten_nil, List.append_nil] at hflat
+              have : pre = units := List.append_cancel_left hflat
+              rw [this]; exact hne
+            · intro h0; rw [h0] at h1; simp [Parts.count] at h1
+          cases hp : pre with
+          | nil => exact absurd hp hpre
+          | cons u us =>
+            refine ⟨u, List.mem_append.mpr (Or.inr (List.mem_cons_self ..)), ?_⟩
+            exact hu u (by rw [hun, hp]; exact List.mem_append.mpr (Or.inl (List.mem_cons_self ..)))
+    have hother : ∀ ch ∈ chs, Conv (s.mkDone id k).1.refs (ch, [(s.mkDone id k).2]) := by
+      intro ch hch
+      apply conv_new _ id _ _ hmk.1 (hchsne ch hch)
+      intro u hu'
+      exact hu u (by rw [hun]; exact List.mem_append.mpr (Or.inr (hchs ch hch u hu')))
+    intro b hb
+    rw [start_slots] at hb
+    rw [hst.1, hcms.2.2.1]
+    simp only [BState.slots, List.mem_append, List.mem_map] at hb
+    rcases hb with (h | ⟨f, hf, rfl⟩) | h
+    · cases hcc : (consumeMerge (s.mkDone id k).1 (s.mkDone id k).2 dones fhn ff small (cur ++ pre) (chs.getLast?.getD []) chs).1.cur with
+      | none => simp [hcc] at h
+      | some b0 =>
+        simp only [hcc, List.mem_singleton] at h
+        subst h
+        rcases hcm.1 b hcc with ⟨h1, _, _⟩ | ⟨h1, h2⟩
+        · rw [h1]; exact hfirst
+        · rw [h1]
+          rw [h2] at hsm
+          simp only [Bool.and_eq_true, decide_eq_true_eq] at hsm
+          exact hother _ (getLastD_mem_of_ne chs (by intro h0; rw [h0] at hsm; simp at hsm))
+    · rw [hcms.1, (mkDone_flights s id k).1] at hf
+      have hm : (f.parts, f.dones) ∈ s.slots := by
+        simp only [BState.slots, List.mem_append, List.mem_map]; exact Or.inr ⟨f, hf, rfl⟩
+      exact hstable k _ hm (hvi _ hm)
+    · rcases hcm.2 b h with h1 | ⟨ch, hch, h1⟩
+      · rw [h1]; exact hfirst
+      · rw [h1]; exact hother ch hch
+
+theorem flush_conv (s : BState) (hvi : VInv s) : VInv (s.flushCur.1.start s.flushCur.2) := by
+  cases hcur : s.cur with
+  | none =>
+    have : s.flushCur = (s, []) := by simp [BState.flushCur, hcur]
+    rw [this]; simpa [BState.start] using hvi
+  | some pd =>
+    obtain ⟨p, ds⟩ := pd
+    have e : s.flushCur = (({ s with cur := none } : BState), [(p, ds)]) := by simp [BState.flushCur, hcur]
+    rw [e]
+    have hst := start_spec [(p, ds)] { s with cur := none }
+    intro b hb
+    rw [start_slots] at hb
+    rw [hst.1]
+    apply hvi
+    simp only [BState.slots, List.nil_append, List.mem_append, List.mem_map, List.mem_singleton] at hb
+    simp only [BState.slots, hcur, List.mem_append, List.mem_singleton, List.mem_map]
+    rcases hb with ⟨f, hf, rfl⟩ | h
+    · exact Or.inr ⟨f, hf, rfl⟩
+    · exact Or.inl h
+
+theorem finish_conv (s : BState) (fid : Nat) (err : Err) (hvi : VInv s) : VInv (s.finish fid err).1 := by
+  cases hfind : s.flights.find? (fun f => f.fid = fid) with
+  | none =>
+    have : s.finish fid err = (s, []) := by simp [BState.finish, hfind]
+    rw [this]; exact hvi
+  | some f =>
+    have e : s.finish fid err = (({ s with refs := (onDoneAll s.refs err f.dones).1, flights := s.flights.filter (fun g => g.fid ≠ fid) } : BState),
+        (onDoneAll s.refs err f.dones).2) := by
+      simp [BState.finish, hfind]
+    rw [e]
+    intro b hb
+    have hb' : b ∈ s.slots := by
+      simp only [BState.slots, List.mem_append, List.mem_map] at hb ⊢
+      rcases hb with h | ⟨g, hg, rfl⟩
+      · exact Or.inl h
+      · exact Or.inr ⟨g, (List.mem_filter.mp hg).1, rfl⟩
+    exact (hvi b hb').mono (fun d _ => tgt_onDoneAll err f.dones s.refs d)
+
+/-- every `consume` label carries at least one unit (a request without items = one unit of size 0), all tagged with its id -/
+def TaggedNE : List BLabel → Prop
+  | [] => True
+  | .consume id units :: ls => (units ≠ [] ∧ ∀ u ∈ units, u.1 = id) ∧ TaggedNE ls
+  | _ :: ls => TaggedNE ls
+
+theorem TaggedNE.tagged (ls : List BLabel) (h : TaggedNE ls) : Tagged ls := by
+  induction ls with
+  | nil => trivial
+  | cons l ls ih =>
+    cases l with
+    | consume id units => exact ⟨h.1.2, ih h.2⟩
+    | flush => exact ih h
+    | finish fid err => exact ih h
+
+theorem brun_conv (c : BCfg) (hv : c.max = 0 ∨ c.min ≤ c.max) :
+    ∀ (ls : List BLabel) (s : BState) (fired : List (Nat × Err)) (consumed : List Nat), SInv s fired consumed → CInv c s → VInv s →
+      TaggedNE ls → (consumedIds ls).Nodup → (∀ id ∈ consumedIds ls, id ∉ consumed) → VInv (brun c s ls).1 := by
+  intro ls
+  induction ls with
+  | nil => intro s fired consumed _ _ hvi _ _ _; simpa [brun] using hvi
+  | cons l ls ih =>
+    intro s fired consumed h hc hvi ht hnd hnew
+    simp only [brun]
+    cases l with
+    | consume id units =>
+      simp only [TaggedNE] at ht
+      simp only [consumedIds, List.nodup_cons] at hnd
+      have hid : id ∉ consumed := hnew id (by simp [consumedIds])
+      have h1 := consume_inv c s fired consumed id units h hid
+      have c1 := consume_cover c hv s id units ht.1.2 (fun i hi => h.1.wf i hi) hc
+      have v1 := consume_conv c hv s id units ht.1.1 ht.1.2 (fun i hi => h.1.wf i hi) hc hvi
+      exact ih _ fired (id :: consumed) h1 c1 v1 ht.2 hnd.2 (by
+        intro x hx
+        simp only [List.mem_cons, not_or]
+        exact ⟨fun e => hnd.1 (e ▸ hx), hnew x (by simp [consumedIds, hx])⟩)
+    | flush =>
+      exact ih _ fired consumed (flush_inv s fired consumed h) (flush_cover c s hc) (flush_conv s hvi) (by simpa [TaggedNE] using ht)
+        (by simpa [consumedIds] using hnd) (by intro x hx; exact hnew x (by simpa [consumedIds] using hx))
+    | finish fid err =>
+      exact ih _ _ consumed (finish_inv s fired consumed fid err h) (finish_cover c s fid err hc) (finish_conv s fid err hvi)
+        (by simpa [TaggedNE] using ht) (by simpa [consumedIds] using hnd) (by intro x hx; exact hnew x (by simpa [consumedIds] using hx))
+
 end OtelVerif.C04
